@@ -83,7 +83,7 @@ for _res, (_patch, _side) in TARGET.items():
             "pdb2pqr.biomolecule:Biomolecule.apply_pka_values", "C06",
             params={
                 "self": Obj("pdb2pqr.biomolecule:Biomolecule", residues=Items(Named("residue", Obj(
-                    f"pdb2pqr.aa:{_res}", name=Const(_res), res_seq=Const(RESNUM), chain_id=Const(CHAIN),
+                    f"pdb2pqr.aa:{_res}", name=Const(_res), res_seq=Const(RESNUM), chain_id=Const(CHAIN), ins_code=Const(""),
                     is_n_term=Const(_n), is_c_term=Const(_c), patches=Items())))),
                 "force_field": Enum(*FFS),
                 "ph": Real,
